@@ -4,10 +4,11 @@ pub mod c10;
 pub mod c11;
 pub mod c12;
 pub mod c15;
+pub mod c18;
 pub mod c19;
 
 use crate::prop::Property;
 
 pub fn all() -> Vec<Box<dyn Property>> {
-    vec![Box::new(c06::C06), Box::new(c07::C07), Box::new(c10::C10), Box::new(c11::C11), Box::new(c12::C12), Box::new(c15::C15), Box::new(c19::C19)]
+    vec![Box::new(c06::C06), Box::new(c07::C07), Box::new(c10::C10), Box::new(c11::C11), Box::new(c12::C12), Box::new(c15::C15), Box::new(c18::C18), Box::new(c19::C19)]
 }
